@@ -1,8 +1,31 @@
 """C06 harness: only the documented error families ever escape; every call terminates."""
 from __future__ import annotations
 
+from typing import Any, Dict, List, Optional, Union
+
 import jsonpath
-from jsonpath import JSONPathEnvironment
+from jsonpath import JSONPatch, JSONPathEnvironment, JSONPointer, RelativeJSONPointer
+from jsonpath.exceptions import (
+    JSONPatchError,
+    JSONPointerError,
+    JSONPointerResolutionError,
+    RelativeJSONPointerError,
+)
+
+from vlib import spines
+from vlib.hs import Leaf, P, kf, ok, pick, small, why
+
+ENV = JSONPathEnvironment()
+IS = Union[int, str]
+QTEXT = P.get("qtext", "$[?@.a in @.b]")
+COMPILED = ENV.compile(QTEXT)
+SPINE = P.get("spine", "objarr")
+MAXN = P.get("maxn", 2)
+SIGMA = ["a", "/", "~", "0", "1", "+", "-", "#", "\\", "é", "_", " ", "'", '"', "\u0661", "\U0001F600", "\x01", "u", "2"][: P.get("sigma", 19)]
+PREFIX = P.get("prefix", 0)
+BASE = P.get("base", 0)
+MAXS = P.get("maxs", 3)
+UE = P.get("unicode_escape", False)
 
 
 def only_family(text: str) -> bool:
@@ -13,3 +36,213 @@ def only_family(text: str) -> bool:
         str(e)
         return True
     return True
+
+
+def _value(kind: int, i: int, s: str, flip: bool) -> Any:
+    """A value of every JSON kind: null, bool, number, string, array, object (contents symbolic)."""
+    if kind == 0:
+        return None
+    if kind == 1:
+        return flip
+    if kind == 2:
+        return i
+    if kind == 3:
+        return s
+    if kind == 4:
+        return [s, i] if flip else [i]
+    return {"a": i, "b": s} if flip else {"b": i}
+
+
+def evaluate(ka: int, kb: int, i: int, s: str, flip: bool, n: int) -> bool:
+    """Evaluation of a compiled query returns matches or raises a JSONPath error - nothing else - and the error renders.
+
+    pre: 0 <= ka <= 5 and 0 <= kb <= 5
+    pre: 0 <= n <= MAXN
+    pre: len(s) <= 2
+    post: _
+    """
+    a, b = _value(ka, i, s, flip), _value(kb, i + 1, s, not flip)
+    if SPINE == "objarr":
+        doc: Any = [{"a": a, "b": b}, {"a": b}, a][: n + 1]
+    elif SPINE == "obj":
+        doc = {"a": a, "b": b, "c": [a, b][:n]}
+    else:
+        doc = [a, b, [a], {"a": b}][: n + 2]
+    try:
+        list(COMPILED.finditer(doc, filter_context={"k": i, "a": a}))
+    except jsonpath.JSONPathError as e:
+        str(e)
+    return ok(True)
+
+
+def _sigma(i: int, j: int, k: int, n: int) -> str:
+    s = ""
+    if n >= 1:
+        s += pick(SIGMA, i)
+    if n >= 2:
+        s += pick(SIGMA, j)
+    if n >= 3:
+        s += pick(SIGMA, k)
+    return s
+
+
+def pointer_text(s: str, arr: bool, x: Leaf) -> bool:
+    """Any text as a JSON Pointer (escape decoding off): accepted or JSONPointerError; resolution only fails with
+    pointer resolution errors; exists() never raises.
+
+    pre: len(s) <= MAXS
+    pre: small(x)
+    post: _
+    """
+    try:
+        p = JSONPointer(s, unicode_escape=False)
+    except JSONPointerError as e:
+        str(e)
+        return ok(True)
+    str(p)
+    doc: Any = [x, [x], {"a": x}] if arr else {"a": x, "": [x, x], "0": {"1": x}, "b": "str"}
+    try:
+        p.resolve(doc)
+        res = True
+    except JSONPointerResolutionError as e:
+        str(e)
+        res = False
+    ex = p.exists(doc)
+    return ok(why(ex == res, "exists disagrees with resolve", s, ex, res))
+
+
+def pointer_sigma(i: int, j: int, k: int, n: int, arr: bool) -> bool:
+    """Same, text drawn from the representative alphabet Sigma (escape decoding per P: the codec is a C boundary).
+
+    pre: 0 <= i < len(SIGMA) and 0 <= j < len(SIGMA) and 0 <= k < len(SIGMA)
+    pre: 0 <= n <= MAXS
+    post: _
+    """
+    s = ["/", "", "/a/"][PREFIX] + _sigma(i, j, k, n)
+    try:
+        p = JSONPointer(s, unicode_escape=UE)
+    except JSONPointerError as e:
+        str(e)
+        return ok(True)
+    str(p)
+    doc: Any = [1, [2], {"a": 3}] if arr else {"a": [1, 2], "": [1], "0": {"1": 2}, "b": "str", "é": 1}
+    try:
+        p.resolve(doc)
+    except JSONPointerResolutionError as e:
+        str(e)
+    try:
+        p.resolve_parent(doc)
+    except JSONPointerResolutionError as e:
+        str(e)
+    p.exists(doc)
+    return ok(True)
+
+
+def relative_sigma(steps: int, off: int, i: int, j: int, k: int, n: int) -> bool:
+    """Any text as a Relative JSON Pointer; applying it to a base pointer.
+
+    pre: 0 <= steps < len(STEPS)
+    pre: 0 <= off < len(OFFS)
+    pre: 0 <= i < len(SIGMA) and 0 <= j < len(SIGMA) and 0 <= k < len(SIGMA)
+    pre: 0 <= n <= MAXS
+    post: _
+    """
+    head = pick(STEPS, steps)
+    mid = pick(OFFS, off)
+    s = head + mid + _sigma(i, j, k, n)
+    b = JSONPointer(["", "/a", "/a/1", "/a/b/2"][BASE])
+    try:
+        r = RelativeJSONPointer(s, unicode_escape=UE)
+    except (RelativeJSONPointerError, JSONPointerError) as e:
+        str(e)
+        return ok(True)
+    str(r)
+    try:
+        str(r.to(b))
+    except (RelativeJSONPointerError, JSONPointerError) as e:
+        str(e)
+    try:
+        str(b.to(s, unicode_escape=UE))
+    except (RelativeJSONPointerError, JSONPointerError) as e:
+        str(e)
+    return ok(True)
+
+
+STEPS = ["", "0", "1", "2", "3", "10", "01", "-1"]
+OFFS = ["", "+1", "-1", "+2", "-2", "+10", "-12", "+0", "+", "-", "+01"]
+OPNAMES = ["add", "remove", "replace", "move", "copy", "test", "addne", "addap", "nope", 1, None]
+PTRS = ["", "/a", "/a/0", "/a/-", "/a/1", "/b/c", "/zz", "/a/x", "a", "/a/#", "/#a", "/a/00", "/a/9", "/b/c/d", "/b", 1, None][P.get("ptrlo", 0):]
+
+
+FROMS = ["/a/0", "/b", "/a", "", "/zz", "/a/-", "/#a", 1, None]
+OPLO, OPHI = P.get("oplo", 0), P.get("ophi", 10)
+
+
+BPTRS = ["/a/0", "a", "/b/c", "", 1, None]
+
+
+def patch_build_apply(op: int, hp: bool, hf: bool, hv: bool, pi: int, fi: int, v: Leaf, x: int) -> bool:
+    """Building a patch from a dict with symbolic member presence/kinds and applying it: only patch errors.
+
+    pre: 0 <= op < len(OPNAMES) and 0 <= pi < len(BPTRS) and 0 <= fi < len(BPTRS)
+    pre: small(v)
+    post: _
+    """
+    d: Dict[str, Any] = {"op": pick(OPNAMES, op)}
+    if hp:
+        d["path"] = pick(BPTRS, pi)
+    if hf:
+        d["from"] = pick(BPTRS, fi)
+    if hv:
+        d["value"] = v
+    try:
+        patch = JSONPatch([d], unicode_escape=False)
+    except JSONPatchError as e:
+        str(e)
+        return ok(True)
+    doc: Any = {"a": [x], "b": {"c": x}}
+    try:
+        patch.apply(doc)
+    except JSONPatchError as e:
+        str(e)
+    patch.asdicts()
+    return ok(True)
+
+
+def patch_builder(which: int, pi: int, fi: int, v: Leaf, x: int, n: int) -> bool:
+    """Builder API with pointer strings, then apply: only patch errors (pointer errors at build time are pointer errors).
+
+    pre: OPLO <= which <= OPHI and 0 <= pi < len(PTRS) - 2 and 0 <= fi < len(FROMS) - 2
+    pre: 0 <= n <= 2
+    pre: small(v, x)
+    post: _
+    """
+    p = JSONPatch(unicode_escape=False)
+    path, from_ = pick(PTRS, pi), pick(FROMS, fi)
+    try:
+        if which == 0:
+            p.add(path, v)
+        elif which == 1:
+            p.remove(path)
+        elif which == 2:
+            p.replace(path, v)
+        elif which == 3:
+            p.move(from_, path)
+        elif which == 4:
+            p.copy(from_, path)
+        elif which == 5:
+            p.test(path, v)
+        elif which == 6:
+            p.addne(path, v)
+        else:
+            p.addap(path, v)
+    except JSONPointerError as e:
+        str(e)
+        return ok(True)
+    arr = [] if n == 0 else ([x] if n == 1 else [x, 1])
+    doc: Any = {"a": arr, "b": {"c": x}}
+    try:
+        p.apply(doc)
+    except JSONPatchError as e:
+        str(e)
+    return ok(True)
